@@ -33,7 +33,7 @@ ASSUMPTIONS = [
 ]
 MUST_REACH = {"resolutions_checked": 2000, "name_lookups_checked": 1000, "temporary_caps_consumed": 50,
               "seed_flows": 100, "proxy_only_stripped": 30, "wrapper_caps_checked": 30, "proxy_cap_reregistrations": 30,
-              "prefix_related_resolutions": 50, "regranted_names": 30, "old_urls_regranted": 20}
+              "prefix_related_resolutions": 50, "regranted_names": 30, "old_urls_regranted": 20, "name_lookups_after_consumption_with_survivors": 10}
 
 NAMES = ["Seed2", "EventQueueGet", "FetchInventory2", "GetTexture", "GetMesh2", "ViewerAsset", "UpdateScriptAgent",
          "ObjectMedia", "SimulatorFeatures", "UploadBakedTexture"]
@@ -133,6 +133,10 @@ def check_resolve(ctx, rig, regions, sessions, url, wit):
                 ctx.violation("temporary-cap-resolved-twice", "a one-shot capability resolved a second time", dict(wit, url=url))
             else:
                 hit[0].grants.remove(hit[1])
+        # consuming one grant must leave the name pointing at the most recent of the remaining ones
+        if sum(1 for g in m.grants if g[0] == n) >= 2:
+            ctx.count("name_lookups_after_consumption_with_survivors")
+        check_name_lookup(ctx, m, n, wit)
     ctx.nontrivial(("resolve", n if n in NAMES + PROXY_NAMES else "other", t.name, len(cands) > 1))
 
 
@@ -254,7 +258,7 @@ def run_sequence(ctx, seed):
         for step in range(40):
             m = rng.choice(regions)
             op = rng.choices(["grant", "temp", "proxy", "name", "resolve", "resolve_unrelated", "seedflow", "wrapper",
-                              "regrant_old"], weights=[4, 2, 2, 4, 7, 1, 2, 1, 2])[0]
+                              "regrant_old", "temp_burst"], weights=[4, 2, 2, 4, 7, 1, 2, 1, 2, 1])[0]
             wit = {"sequence_seed": seed, "step": step, "op": op, "region": m.idx, "history_tail": history[-6:]}
             history.append((op, m.idx))
             if op == "grant":
@@ -279,6 +283,17 @@ def run_sequence(ctx, seed):
                 url = rand_url(rng, regions)
                 m.region.register_cap(name, url, CapType.TEMPORARY)
                 m.add(name, url, CapType.TEMPORARY)
+            elif op == "temp_burst":
+                # several one-shot grants under one name (uploads in flight), one of them is used, then the name is looked up
+                name = rng.choice(["UpdateScriptAgentUploader", "UploadBakedTextureUploader", "TmpCap"])
+                urls = []
+                for _ in range(rng.randint(3, 4)):
+                    url = rand_url(rng, regions)
+                    m.region.register_cap(name, url, CapType.TEMPORARY)
+                    m.add(name, url, CapType.TEMPORARY)
+                    urls.append(url)
+                check_resolve(ctx, rig, regions, sessions, rng.choice(urls) + rng.choice(["", "/x"]), wit)
+                check_name_lookup(ctx, m, name, wit)
             elif op == "proxy":
                 name = rng.choice(PROXY_NAMES)
                 prev = m.newest(name)
@@ -306,7 +321,7 @@ def run_sequence(ctx, seed):
                     continue
                 m.add(name + "ProxyWrapper", wurl, CapType.WRAPPER)
             elif op == "name":
-                check_name_lookup(ctx, m, rng.choice(NAMES + PROXY_NAMES + ["Seed"]), wit)
+                check_name_lookup(ctx, m, rng.choice(NAMES + PROXY_NAMES + ["Seed", "UpdateScriptAgentUploader", "UploadBakedTextureUploader", "TmpCap"]), wit)
             elif op == "resolve":
                 pool = [u for (_, u, _) in m.grants]
                 url = rng.choice(pool) + rng.choice(["", "/", "/extra/path?x=1", "?q=2", "suffix"])
